@@ -2,6 +2,7 @@
 import os
 from checks import codec_common as cc
 from checks import codec_randacc as ra
+from vlib.core import ROOT
 
 MODULES = ["TLVerif.Props.C43"]
 THEOREMS = ["TLVerif.Props.C43." + t for t in [
@@ -10,9 +11,60 @@ THEOREMS = ["TLVerif.Props.C43." + t for t in [
     "set_frame_vals", "set_frame_tl2", "set_frame_params", "set_frame_maskBits",
     "clear_frame_vals", "clear_frame_tl2", "clear_frame_params", "clear_frame_maskBits",
     "set_keeps_consistent_partial", "clear_keeps_consistent_partial", "ofRead_agrees",
-    "accessors_inconsistent_at_shared_bit", "accessors_inconsistent_at_mask_of_mask", "set_does_not_set_ancestor_mask"]]
-SOURCES = ["TLVerif.Codec.Access", "TLVerif.Codec.AccessLemmas", "TLVerif.Codec.Ops.Access"]
+    "accessors_inconsistent_at_shared_bit", "accessors_inconsistent_at_mask_of_mask", "set_does_not_set_ancestor_mask", "toVal2Fields_get", "setFalse_absent_tl2origin"]]
+SOURCES = ["TLVerif.Codec.Access", "TLVerif.Codec.Access2", "TLVerif.Codec.AccessLemmas", "TLVerif.Codec.Ops.Access"]
 K_SHARED = "C43-shared-mask:accessors-update-only-their-own-presence-bit:qt_struct.qtpl-fieldMaskGettersAndSetters"
+
+
+def tl2_schemas(c):
+    from checks import codec_tl2 as t2
+    s = [cc.Schema("ab", [os.path.join(ROOT, "schemas", "accbits.tl2")], tl2="*", sanity=True),
+         cc.Schema("extra2", [t2.DATA + "/tl2extra.tl2"], tl2="*", sanity=True)]
+    if c.thorough:
+        s.append(cc.Schema("cases2", [cc.TLS + "/cases.tl2"], tl2="*", sanity=True))
+    return s
+
+
+def run_tl2(c, model, sc, rng, per):
+    """TL2-origin structs: presence is the hidden bit alone; histories of Set(true)/Set(false)/Set(value)/Clear, observed
+    through IsSet after every step, the TL2 bytes, and (oracle) TL2/JSON round trips + JSON keys of the final object"""
+    lines = ra.acc2_lines(sc, rng, per)
+    res = c.tie("acc2:" + sc.sid, lines, sc.impl, model, prefix=ra.prefix(sc), canon=ra.canon_acc)
+    for l, a, b in res:
+        if not a.startswith("ok "):
+            c.count("acc2:impl-" + a.split(" ")[0])
+            if a in ("panic", "CRASH", "TIMEOUT", "no-method", "bad-sig", "no-field"):
+                c.oracle_fail(l, "accessor history does not run: " + a, l)
+            continue
+        f = l.split(" ")
+        o = dict(p.split("=", 1) for p in a.replace(" | ", " ").split(" ")[1:] if "=" in p)
+        steps = o["steps"].split(";")
+        ops = f[6].split(",")
+        probs = []
+        prev = None
+        for op, st in zip(ops, steps):
+            cur = dict(p.split(":") for p in st.split(","))
+            i = op[1:].split(":")[0]
+            want = "0" if (op[0] == "c" or op.endswith(":0")) else "1"
+            if cur.get(i) != want:
+                probs.append("IsSet reports %s right after %s" % (cur.get(i), op))
+            if prev is not None:
+                ch = [j for j in cur if j != i and cur[j] != prev.get(j)]
+                if ch:
+                    probs.append("IsSet of other fields changed by %s: %s" % (op, ",".join(ch)))
+            prev = cur
+        final = dict(p.split(":") for p in o["final"].split(","))
+        jk = dict(p.split(":") for p in o["jkeys"].split(","))
+        bad = [j for j in final if jk.get(j) != final[j]]
+        if bad and o.get("js") != "werr":
+            probs.append("JSON has/lacks the key of fields whose IsSet says otherwise: " + ",".join(bad))
+        if o.get("js") == "n/a":
+            c.count("skipped:json-round-trip-fails-before-the-call")
+        for k in ("t2", "js"):
+            if o.get(k) not in ("same", "n/a"):
+                probs.append("%s round trip of the final object: %s" % (k, o.get(k, "?")[:40]))
+        if probs:
+            c.oracle_fail(l, "TL2-origin accessors leave presence inconsistent: " + "; ".join(probs[:4]), l)
 
 
 def run(c):
@@ -24,6 +76,10 @@ def run(c):
     hginfo = ra.build_hginfo(c)
     rng = c.rng
     per = 12 if c.thorough else 4
+    _, _, schemas2 = cc.prepare(c, [x for x in tl2_schemas(c) if not only or x.sid in only.split(",")])
+    for sc in schemas2:
+        if ra.export_ginfo(c, hginfo, sc):
+            run_tl2(c, model, sc, rng, 120 if c.thorough else 40)
     for sc in schemas:
         if not ra.export_ginfo(c, hginfo, sc):
             continue
